@@ -260,7 +260,7 @@ impl Property for C08 {
     }
     fn runs(&self, tier: &str) -> u64 {
         if tier == "thorough" {
-            3_000
+            1_000
         } else {
             2_400
         }
